@@ -32,7 +32,7 @@ RELAYS = [
     ('bravo', 2, '10.0.0.2', 9001, 0, ['Fast', 'Running', 'Stable', 'Valid']),
     ('charlie', 3, '10.0.0.3', 443, 80, ['Exit', 'Fast', 'Running', 'Valid']),
 ]
-OUTSIDE = ('outsider', 9)      # a relay that is not in the consensus
+OUTSIDE = ('charlie', 9)       # a relay that is not in the consensus - and that uses the nickname of one that is
 
 
 def ns_lines(relays=RELAYS):
